@@ -785,6 +785,8 @@ async fn thread_post_message(
     };
 
     let handle = state.engine.create_session();
+    // The run's input is the thread message: its session takes no input of its own.
+    let _ = handle.take_input_slot();
     let session_id = handle.session_id.clone();
     {
         let mut sessions = state.sessions.lock().await;
